@@ -15,7 +15,6 @@
 -/
 import RotoV.Lemmas.MirVariant
 import RotoV.Lemmas.Mir
-import RotoV.Generated.C03Dumps
 
 namespace RotoV.C03
 open RotoV.Mir
@@ -104,19 +103,5 @@ theorem copied_examinee_accepted : varCheck copied copiedVCert = true := by deci
 /-- non-vacuity of `variant_reads_sound` -/
 example : wrongWithin copied (fun _ => 0) 6 (entryLabel copied) (initC copied (fun _ => 0)) = false :=
   variant_reads_sound copied copiedVCert copied_examinee_accepted _ _ _
-
-/-! ## The current tree (dumps regenerated on every run into `Generated/C03Dumps.lean`) -/
-
-/-- `let x = opt(t, true); match x { Some(y) if { x = None; id(y) == n } => 1, Some(z) => id(z), None => 3 }`:
-    the guard assigns to the matched variable; the arms read the match's own copy of the
-    examinee, which nothing writes between the switch and the reads. -/
-theorem examinee_reassigned_witness_accepted_on_current_tree :
-    ownCheck Now.wExamineeReassigned Now.wExamineeReassignedCert = true ∧
-    varCheck Now.wExamineeReassigned Now.wExamineeReassignedVCert = true := by decide +kernel
-
-/-- the same for an enum with a String payload, reassigned by the guard of its first arm -/
-theorem examinee_enum_reassigned_witness_accepted_on_current_tree :
-    ownCheck Now.wExamineeEnumReassigned Now.wExamineeEnumReassignedCert = true ∧
-    varCheck Now.wExamineeEnumReassigned Now.wExamineeEnumReassignedVCert = true := by decide +kernel
 
 end RotoV.C03
